@@ -69,6 +69,10 @@ Print Assumptions C20_exactly_once_noapp.
 (* [r] = the output answers cursor position requests: a section then waits in
    renderer.wait_for_cpr_responses() (rendering still enabled) until the
    outstanding reports arrive (LCprAnswer) or time out (LCprTimeout).
+   [c] = the AppSession the rig creates the proxy in; NO model step reads it: that the
+   callback sees the application of the proxy's own session (fix acce0d8) is built into
+   LLoopStep, so the statement for c = false is the same term as for c = true and is tied
+   to the code by the other-session replays only.
    One application alive throughout (started before the run; it may exit -
    AppExit is allowed - but is not stopped/restarted and its loop is not
    closed), the proxy created in ANY AppSession (c), every schedule, including
@@ -93,11 +97,25 @@ Proof.
 Qed.
 Print Assumptions C20_exactly_once_running.
 
-(* EVERY schedule (any life cycle, closed loops included): the flush thread
-   never dies (aa2fd63: RuntimeError from a closed loop is caught). *)
+(* Model sanity, EVERY schedule (any life cycle, closed loops included): [step]
+   has no transition into FCrash.  The only modelled place where the flush
+   thread could die - loop.call_soon_threadsafe on a closed loop - is a caught
+   RuntimeError at HEAD (fix aa2fd63; deliver branch "write directly").  What this
+   excludes is shown by the pinned deliver step below, which had the crash
+   transition.  Exceptions from the Output object or user callbacks are not
+   modelled; the evidence for the real code is the replay of w_crash and the
+   oracle's flush-thread-died clause. *)
 Theorem C20_flush_thread_never_dies : forall c r ls, fth (px (run (init2 c r) ls)) <> FCrash.
 Proof. exact never_dies. Qed.
 Print Assumptions C20_flush_thread_never_dies.
+
+Theorem C20_flush_thread_dies_pinned_refuted : exists ls,
+  fth (px (run_pinned (init true) ls)) = FCrash /\
+  out_text (run_pinned (init true) ls) = [] /\ queue_text (px (run_pinned (init true) ls)) <> [].
+Proof.
+  exists w_crash. destruct closed_loop_pinned as [A [B C]]. repeat split; try assumption. rewrite C. discriminate.
+Qed.
+Print Assumptions C20_flush_thread_dies_pinned_refuted.
 
 (* EVERY schedule: run-in-terminal sections start in submission order (ids are
    handed out at submission), whatever the order of wake-ups. *)
